@@ -29,7 +29,19 @@ def model_apply(d, op):
     else:
       r[1] = op[2]
   elif k == "settag":
-    d.set_tag(d.find_text(op[1]), "{}:i:{}".format(op[2], op[3]))
+    d.set_tag(d.find_text(op[1]), "{}:{}:{}".format(
+        op[2], "i" if isinstance(op[3], int) else "Z", op[3]))
+  elif k == "readd":
+    d.add(op[1])
+  elif k == "addclone":
+    r = d.find(op[1])
+    if r is None or r[0] != "S":
+      raise refdoc.Illegal("no such segment")
+    if op[2] in d.names() or op[2] in d.mentioned():
+      raise refdoc.Illegal("target identifier in use or mentioned")
+    c = list(r)
+    c[1] = op[2]
+    d.add("\t".join(c))
   elif k == "deltag":
     d.del_tag(d.find_text(op[1]), op[2])
   else:
@@ -187,12 +199,15 @@ class S(explore.Spec):
 
 G1 = [u for u in universe.G1 if "2M1I" not in u]   # no parallel link: see ambiguous()
 S(name="c05.g1", universe=G1, version="gfa1", rename_targets=("Z",), tag_ops=False,
-  unname_ops=True)
-S(name="c05.g2", universe=universe.G2_SINGLE, version="gfa2", rename_targets=("z",))
+  unname_ops=True, readd_ops=True)
+S(name="c05.g2", universe=universe.G2_SINGLE, version="gfa2", rename_targets=("z",),
+  readd_ops=True)
 S(name="c05.g1core", universe=universe.G1_CORE, version="gfa1",
-  rename_targets=("Z",), tag_ops=True, name_unnamed=("n1",), unname_ops=True)
+  rename_targets=("Z",), tag_ops=True, name_unnamed=("n1",), unname_ops=True,
+  clone_ops=("Y",), readd_ops=True)
 S(name="c05.g2core", universe=universe.G2_CORE, version="gfa2",
-  rename_targets=("z",), tag_ops=True, name_unnamed=("n1",))
+  rename_targets=("z",), tag_ops=True, name_unnamed=("n1",), clone_ops=("y",),
+  readd_ops=True)
 
 
 def run(ctx):
@@ -225,6 +240,13 @@ def run(ctx):
       done[name + "@full"] = explore.bfs(
           ctx, sp, d2, label=name + "@full",
           prefix=universe.full_prefix(sp.version))[0]
+    # ... and the core specs (tag edits, clones, removed objects added again)
+    # from their own loaded universe
+    for name in ("c05.g1core", "c05.g2core"):
+      sp = explore.SPECS[name]
+      done[name + "@full"] = explore.bfs(
+          ctx, sp, d2, label=name + "@full",
+          prefix=[("add", l) for l in sp.universe])[0]
   ctx.traces = ctx.transitions
   ctx.bound_completed = done
 
